@@ -151,6 +151,10 @@ def inv_hook(w, alg, assumptions):
         assumptions.append(tz % P != 0); assumptions.append((tz * ti - 1) % P == 0); w.inv_arg = tz
         return FV(ti)
     w.hooks[fn] = h
+    # the two-argument overload inv(Element &result, const Element &in) has the same contract (C10 proves both)
+    def h2(it, args):
+        r = h(it, [args[1]]); w.store(args[0], I(64), r); return None
+    w.hooks['@_ZN10Goldilocks3invERNS_7ElementERKS0_'] = h2
 
 def ob_inv(ctx, form, alias):
     w, alg = setup(ctx); asm = []; inv_hook(w, alg, asm); it = Interp(w)
